@@ -33,7 +33,7 @@ CHECKS = {
                      '(clip: three-cell clamp closure). Composition is a paper induction; numeric frame semantics are C03.',
                 note=TB + '; user closures / user Signal impls are opaque effects; no feasibility solving (only constant folding).'),
     'C05': dict(level='other', ref='DESIGN.md §5 C05',
-                technique='item-table sibling rule (override of is_exhausted) + path summaries: boolean truth tables and step-function conformance',
+                technique='item-table sibling rule (override of is_exhausted) + path summaries: boolean truth tables and step-function conformance; call-graph import of the frame obligations (C03) reached from the iterator-backed sources',
                 text='Decides structurally, for all paths: every impl Signal storing a Signal source overrides is_exhausted; each override is the OR of its sources '
                      '(Delay: n==0 AND source; iterator-backed: look-ahead slot empty); look-ahead protocol of from_iter/from_interleaved_samples_iter; step functions of '
                      'UntilExhausted, Take, IntoInterleavedSamples::next_sample; lift wiring. The history-level statement follows by induction (paper).',
@@ -81,9 +81,9 @@ CHECKS = {
                      'The windowed-sum statement follows with C06; the numeric error bound is NOT decided (paper: <= 6.07 % for the bit trick).',
                 note=TB + '; amplitude abstraction; rounding ignored in polynomial identities.'),
     'C19': dict(level='other', ref='DESIGN.md §5 C19',
-                technique='per-channel scalarisation of closures into piecewise rational functions, sibling-agreement rule, write-set rules',
+                technique='per-channel scalarisation of closures into piecewise rational functions, sibling-agreement rule, write-set rules, who-may-call rule (no float-companion route inside a rectifier)',
                 text='Rectifier cell functions (|x|, max(x,0), min(x,0)) on the three cells, each Rectifier impl forwards to its own kind, gain = select(n==0, 0, powf(e, -1/n)) with bit-exact e, '
-                     'one-pole update d + select(l<d, attack, release)*(l-d) stored and returned, constructor and setter write sets, Detect impls, signal adaptor. No-overshoot / convergence are a paper step.',
+                     'the rectifier bodies never leave the integer / native format (no mul_amp / to_float_sample / to_sample), one-pole update d + select(l<d, attack, release)*(l-d) stored and returned, constructor and setter write sets, Detect impls, signal adaptor. No-overshoot / convergence are a paper step.',
                 note=TB + '; amplitude abstraction (comparisons in a format agree with comparisons of amplitudes).'),
     'C20': dict(level='other', ref='DESIGN.md §5 C20, Appendix C.5',
                 technique='rational-function normal form (Hann), path summaries, Fourier-Motzkin over (bin, hop, remaining) for the windower transition and the size_hint consistency rule',
